@@ -154,3 +154,8 @@ CHECKS["C19"]["engines"] = [{"fn": "e2e", "tiers": ["quick", "thorough"]}]
 for _c in ("C01", "C02", "C19"):
     CHECKS[_c]["rule"] += E2E_NOTE
     CHECKS[_c]["assumptions"] = CHECKS[_c]["assumptions"] + ["real-process layer: `unshare -n` works in the sandbox (otherwise runs are serialised because port 6881 is a constant); real time is only used for watchdogs and for the idle criterion"]
+
+# Miri (thorough tier): the same workers interpreted at strongly reduced counts (engines.MIRI_PLAN)
+for _c in ("C02", "C05", "C06", "C07", "C12", "C13", "C14", "C15", "C16", "C17", "C19"):
+    CHECKS[_c].setdefault("engines", []).append({"fn": "miri", "tiers": ["thorough"]})
+    CHECKS[_c]["assumptions"] = CHECKS[_c]["assumptions"] + ["thorough tier also runs the workload under Miri (nightly) at reduced counts: a clean run covers only what was interpreted; unsupported operations and time-outs there are reported as inconclusive"]
